@@ -99,8 +99,16 @@ def input_has_content(sp, inp):
 def count_inputs(bundle, depth=0):
     """(cells, surfaces, data, mt) inputs of the bundle by the independent splitter; read cards are followed."""
     counts = [0, 0, 0, 0]
+    mods_seen = set()
+    ambiguous = [False]
 
     def add(text, start_block, top):
+        for l in text.split("\n"):
+            # `&` followed by blanks or a `$` comment, a line longer than 80 columns, a tab: how the line is cut and
+            # continued is the business of C10/C11, not of this light test
+            body = l.split("$")[0]
+            if ("&" in l and not l.endswith("&")) or len(l.expandtabs(8)) > 80 or (body.rstrip().endswith("&") and not is_comment_line(l) and "$" in l):
+                ambiguous[0] = True
         sp = split_file(text) if top else split_file("t\n" + text)
         for b in range(3):
             tb = b + start_block
@@ -116,12 +124,19 @@ def count_inputs(bundle, depth=0):
                     if m and m.group(1) in bundle["files"] and depth < 6:
                         add(bundle["files"][m.group(1)], tb, False)
                     continue
+                if tb == 2:
+                    # per-cell data given by several data-block inputs of one class (imp:n ... / imp:p ...) are merged
+                    m = re.fullmatch(r"\*?(imp|vol|u|lat|fill)(:.*)?", w)
+                    if m:
+                        if m.group(1) in mods_seen:
+                            continue
+                        mods_seen.add(m.group(1))
                 counts[tb] += 1
                 if tb == 2 and re.fullmatch(r"mt\d+", w):
                     counts[3] += 1
 
     add(bundle["main"], 0, True)
-    return counts
+    return None if ambiguous[0] else counts
 
 
 TOKEN_RE = re.compile(r"[^ \t]+")
@@ -421,9 +436,10 @@ def judge(bundle, obs, kind):
                 )
             )
     if n["out"] == "returns":
-        cells, surfs, data, mt = count_inputs(bundle)
+        cnt = count_inputs(bundle)
+        cells, surfs, data, mt = cnt if cnt is not None else (None, None, None, None)
         got = (n["cells"], n["surfaces"], n["data"] + n["mt_attached"])
-        if got != (cells, surfs, data):
+        if cnt is not None and got != (cells, surfs, data):
             out.append(
                 (
                     dict(base, **{"class": "misrepresents", "what": "cells" if got[0] != cells else "surfaces" if got[1] != surfs else "data"}),
